@@ -163,16 +163,16 @@ def spec_lines():
 
 # actions that must have been taken in a family's exhaustive run, or the property was not exercised
 REQUIRED_ACTIONS = {
-    "core": ["StepDrop", "StepOrphan", "StepBust", "StepMark", "StepRelease", "StepUninit", "StepPostValue", "OpAdopt", "OpUnadopt"],
-    "weak": ["StepMark", "OpUpgrade", "OpWeakDrop", "OpStoreWeak"],
-    "dtor10": ["StepValueScript", "StepMark"],
-    "dtor16": ["StepValueScript", "StepMark", "OpCloneStored"],
-    "dtor05": ["StepValueScript", "StepMark", "OpUpgradeStored"],
-    "panic": ["StepValuePanic", "StepUnwindSkip", "StepMark"],
-    "consume": ["OpTryUnwrap", "OpMakeMutX", "OpGetMut", "OpDecStrong", "OpDropDetached", "StepMark"],
-    "stale": ["StepMark", "OpTake", "OpDropStored"],
-    "elide": ["StepMark", "OpTake", "OpDropStored"],
-    "order": ["StepMark", "OpAdoptStore", "OpTakeUnadopt"],
+    "core": ["StepDrop", "StepOrphan", "StepBust", "StepMarkO", "StepRelease", "StepUninit", "StepPostValue", "OpAdopt", "OpUnadopt"],
+    "weak": ["StepMarkO", "OpUpgrade", "OpWeakDrop", "OpStoreWeak"],
+    "dtor10": ["StepValueScript", "StepMarkO"],
+    "dtor16": ["StepValueScript", "StepMarkO", "OpCloneStored"],
+    "dtor05": ["StepValueScript", "StepMarkO", "OpUpgradeStored"],
+    "panic": ["StepValuePanic", "StepUnwindSkip", "StepMarkO"],
+    "consume": ["OpTryUnwrap", "OpMakeMutX", "OpGetMut", "OpDecStrong", "OpDropDetached", "StepMarkO"],
+    "stale": ["StepMarkO", "OpTake", "OpDropStored"],
+    "elide": ["StepMarkO", "OpTake", "OpDropStored"],
+    "order": ["StepMarkO", "OpAdoptStore", "OpTakeUnadopt"],
     "std": ["OpTryUnwrap", "OpMakeMutX", "StepUninit"],
 }
 
@@ -588,6 +588,14 @@ def run_check(prop, tier, seed, replay):
                         continue
                     raise ToolError("harness failed in drive mode (rc=%s): %s" % (rc, (out or "")[-500:]))
                 drive_traces.append(dict(label="drive-" + fam, scripts=sp, trace=tp, nobj=dv["nobj"], n=n))
+        # 3b. deterministic mid-size shapes (9-12 objects; see tools/shapes.py)
+        if "core" in P["fams"]:
+            import shapes
+            pth = os.path.join(wd, "shapes.ndjson")
+            with open(pth, "w") as f:
+                for sc in shapes.generate(seed, 18 if tier == "quick" else 150):
+                    f.write(json.dumps(sc) + "\n")
+            script_files.append(("shapes", pth, 12))
         # 4. committed witnesses of repaired / known defects
         fdir = os.path.join(VERIF, "findings")
         if os.path.isdir(fdir):
